@@ -1310,13 +1310,19 @@ class Builder:
 
     def s_Break(self, st):
         if self.frame.loops:
-            self.frame.loops[-1]['breaks'].append(self.snapshot())
+            self.frame.loops[-1]['breaks'].append((self.snapshot(), self._loop_conds()))
         return 'break'
 
     def s_Continue(self, st):
         if self.frame.loops:
-            self.frame.loops[-1]['continues'].append(self.snapshot())
+            self.frame.loops[-1]['continues'].append((self.snapshot(), self._loop_conds()))
         return 'continue'
+
+    def _loop_conds(self):
+        """The condition (since the loop body was entered) under which control reaches this break / continue."""
+        lp = self.frame.loops[-1]
+        conds = list(self.frame.conds[lp.get('depth', 0):])
+        return self.conj(conds) if conds else None
 
     def s_Global(self, st):
         self.frame.globals_decl.update(st.names)
@@ -1509,7 +1515,7 @@ class Builder:
         else:
             c = self.eval(st.test)
             f.conds.append((c, True))
-        loop = {'breaks': [], 'continues': []}
+        loop = {'breaks': [], 'continues': [], 'depth': len(f.conds)}
         f.loops.append(loop)
         out = self.exec_block(st.body)
         f.loops.pop()
@@ -1520,9 +1526,12 @@ class Builder:
             pass
         end = self.snapshot()
         # join continue states into the back edge
-        for s in loop['continues']:
+        for s, c in loop['continues']:
             cur = self.snapshot()
-            self.merge(self.unknown('continue'), cur, s)
+            if c is not None:
+                self.merge(c, s, cur)            # the state at the `continue` is the one reached when its condition held
+            else:
+                self.merge(self.unknown('continue'), cur, s)
         for kind, key, mu in mus:
             if kind == 'l':
                 nxt = self.frame.locals.get(key)
@@ -1541,9 +1550,12 @@ class Builder:
                 self.gvars[key] = mu
             else:
                 self.heap.setdefault(key[0], {})[key[1]] = mu
-        for s in loop['breaks']:
+        for s, c in loop['breaks']:
             cur = self.snapshot()
-            self.merge(self.unknown('break'), cur, s)
+            if c is not None:
+                self.merge(c, s, cur)
+            else:
+                self.merge(self.unknown('break'), cur, s)
         if st.orelse:
             return self.exec_block(st.orelse)
         return 'fall'
